@@ -197,7 +197,10 @@ class IterativeTighteningSearch(Bounded, Generic[B]):
                             self._tightened.push(next_best)
                         else:
                             self._untightened.push(next_best)
-                        return True
+                        # (if the initial bounds were already definitive, then the bounds have not changed)
+                        new_bounds = self.bounds()
+                        return new_bounds.lower_bound > starting_bounds.lower_bound \
+                            or new_bounds.upper_bound < starting_bounds.upper_bound
                     if starting_bounds.dominates(next_best.bounds()) or \
                             (self.best_match is not None
                              and self.best_match.bounds().dominates(next_best.bounds())) or \
